@@ -320,7 +320,7 @@ fn transposed(a: &[Vec<f64>]) -> Vec<Vec<f64>> {
 }
 
 /// how the public API is entered
-const CM_VARIANTS: [&str; 8] = [
+const CM_VARIANTS: [&str; 11] = [
     "array.cm(&array)",
     "view.cm(view)",
     "array.cm(&dataset)",
@@ -329,6 +329,9 @@ const CM_VARIANTS: [&str; 8] = [
     "strided-view.cm(&strided-view)",
     "counted-targets.cm(&array)",
     "reversed-view.cm(&reversed-view)",
+    "reversed-view.cm(&array)",
+    "array.cm(&owned-array-with-negative-stride)",
+    "strided-view.cm(&reversed-view)",
 ];
 
 fn build_cm<L: Lab>(
@@ -355,10 +358,27 @@ fn build_cm<L: Lab>(
             pb.slice(s![..;2]).confusion_matrix(tb.slice(s![..;2]))
         }
         6 => CountedTargets::new(p.clone()).confusion_matrix(&t),
-        _ => {
+        7 => {
             let pb = Array1::from_shape_fn(n, |i| pred[n - 1 - i].clone());
             let tb = Array1::from_shape_fn(n, |i| truth[n - 1 - i].clone());
             pb.slice(s![..;-1]).confusion_matrix(tb.slice(s![..;-1]))
+        }
+        // only one of the two vectors walks its buffer backwards
+        8 => {
+            let pb = Array1::from_shape_fn(n, |i| pred[n - 1 - i].clone());
+            pb.slice(s![..;-1]).confusion_matrix(&t)
+        }
+        9 => {
+            // `to_owned` of a reversed view keeps the negative stride
+            let tb = Array1::from_shape_fn(n, |i| truth[n - 1 - i].clone());
+            let towned = tb.slice(s![..;-1]).to_owned();
+            p.confusion_matrix(&towned)
+        }
+        _ => {
+            let filler = pred[0].clone();
+            let pb = Array1::from_shape_fn(2 * n, |i| if i % 2 == 0 { pred[i / 2].clone() } else { filler.clone() });
+            let tb = Array1::from_shape_fn(n, |i| truth[n - 1 - i].clone());
+            pb.slice(s![..;2]).confusion_matrix(tb.slice(s![..;-1]))
         }
     });
     r.map(|x| x.map_err(|e| format!("{e}")))
@@ -373,7 +393,7 @@ fn check_cm<L: Lab>(c: &mut Case, pred: &[L], truth: &[L], variant: usize, score
     let ctxf = || json!({"pred": labels_json(pred), "truth": labels_json(truth), "api": CM_VARIANTS[variant]});
     let cm = match build_cm(pred, truth, variant) {
         Err(p) => {
-            let sig = if variant == 5 || variant == 7 {
+            let sig = if variant == 5 || variant >= 7 {
                 "C05/confusion_matrix/panic-noncontiguous"
             } else {
                 "C05/confusion_matrix/panic"
@@ -669,7 +689,7 @@ fn check_log_loss(c: &mut Case, s: &[f32], y: &[bool], variant: usize) -> Result
 
 /// random scores on the grid k / 2^19: equal or >= 1.9e-6 apart, exactly representable in f32
 fn gen_scores(rng: &mut Rng, n: usize) -> (Vec<f32>, Vec<bool>, String) {
-    let kind = rng.gen_range(0..5);
+    let kind = rng.gen_range(0..7);
     let levels: u32 = match kind {
         0 => 1 << 19,
         1 => rng.gen_range(2..6),
@@ -689,6 +709,15 @@ fn gen_scores(rng: &mut Rng, n: usize) -> (Vec<f32>, Vec<bool>, String) {
         for v in s.iter_mut() {
             let k = rng.gen_range(0..6u32) as f32 / (1u32 << 19) as f32;
             *v = if hi { 1.0 - k } else { k };
+        }
+    }
+    if kind >= 5 {
+        // saturated probabilities: neighbouring f32 values just below 1 (5.96e-8 apart) or tiny
+        // multiples of 1e-8 next to 0 - distinct scores, all further apart than 1e-10
+        let hi = kind == 5;
+        for v in s.iter_mut() {
+            let k = rng.gen_range(0..7u32);
+            *v = if hi { 1.0 - k as f32 * f32::EPSILON / 2.0 } else { k as f32 * 1e-8 };
         }
     }
     // boundary scores
@@ -1405,7 +1434,7 @@ pub fn run(ctx: &Ctx) {
         "label vectors: every (prediction, truth) pair over an alphabet of 3 symbols up to the tier's \
          length (usize / String / bool mappings), random long pairs with differing label sets, every \
          public receiver/argument combination; scores: every vector over the grid {0,1/8,..,1} x every \
-         labelling with both classes, random f32 scores that are equal or >= 1.9e-6 apart; regression: \
+         labelling with both classes, random f32 scores that are equal or >= 1.9e-6 apart, plus saturated scores (neighbouring f32 values below 1, multiples of 1e-8 above 0); regression: \
          random f32/f64 vectors and matrices (scale 1e-6..1e6, offsets, lattices with ties, exact hits), \
          truth non-constant; clusterings with >= 2 clusters of >= 2 distinct points (all labelings of \
          small point sets + random); Pearson on random matrices with non-constant columns. A case is \
